@@ -310,13 +310,13 @@ def record_shapes():
             continue
         u = load_unit(uf[:-5])
         for inst in parse_insts(u.get("inst quick", ""))[:1]:
-            reqs = [r for r in build_request(u, inst, contracts) if r["mode"] in ("body", "slice") and (r["proofs"] or r["stmts"])]
+            reqs = [r for r in build_request(u, inst, contracts) if r["mode"] in ("body", "slice")]
             if not reqs:
                 continue
             res = run_extract([{k: v for k, v in r.items() if not k.startswith("_") and k != "cid"} for r in reqs])
             for r, o in zip(reqs, res["items"]):
-                if o["ok"] and o.get("stmt_fps"):
-                    out[r["cid"]] = {"stmts": o["stmt_fps"], "loops": o.get("loop_fps", [])}
+                if o["ok"] and o.get("stmt_fps") is not None:
+                    out[r["cid"]] = {"stmts": o["stmt_fps"], "loops": o.get("loop_fps", []), "n_closures": o.get("n_closures", 0), "n_loops": o.get("n_loops", 0)}
     with open(os.path.join(VERIF, "verus", "shapes.json"), "w") as f:
         json.dump(out, f, indent=1, sort_keys=True)
     print("recorded shapes of %d functions" % len(out))
@@ -749,6 +749,24 @@ def _verify_unit_once(unit_name, unit, inst, contracts):
         f.write(asm.text())
     res = run_verus(path)
     fails, mach = classify(asm, res, contracts, unit)
+    # proof-shape drift: a function that now contains MORE closures or loops than on the unchanged tree carries code that
+    # has no contract (a closure without `ensures`, a loop without invariant): a failed obligation of such a function says
+    # nothing about the code - it is undecided (exit 2 for the properties that depend on it), never a violation
+    sh = shapes()
+    drift = {}
+    for q, o in zip(reqs, outs["items"]):
+        rec = sh.get(q["cid"])
+        if rec and o.get("ok") and q["mode"] in ("body", "slice"):
+            if o.get("n_closures", 0) > rec.get("n_closures", 10**9) or o.get("n_loops", 0) > rec.get("n_loops", 10**9):
+                drift[q["id"]] = "%s now has %d closure(s) / %d loop(s) (unchanged tree: %d / %d): the new one carries no contract" % (q["id"], o.get("n_closures", 0), o.get("n_loops", 0), rec.get("n_closures", 0), rec.get("n_loops", 0))
+    if drift:
+        kept = []
+        for f in fails:
+            if f["item"] in drift:
+                mach.append({"message": "proof-shape drift: " + drift[f["item"]] + " - obligation %s is undecided" % f["obligation"], "rendered": f["rendered"], "props": f["props"]})
+            else:
+                kept.append(f)
+        fails = kept
     tags, funcs = count_obligations(asm, res)
     vr = (res.get("summary") or {}).get("verification-results", {})
     if res["summary"] is None:
